@@ -563,7 +563,7 @@ example : ∀ p ∈ groupPieces ">=1.0+x, <=2.0+y.1 1.5+z".toList, ∀ c, parseS
 /-- the group step alone, for any group of non-union clauses -/
 theorem vc_plain_group_total (g : List Char) (m : Bool)
     (h : ∀ p ∈ groupPieces g, ∀ c, parseSingle p m = .ok c → c.notUnion) :
-    (∃ c, parseGroup g m = .ok c ∧ Plain c) ∨ parseGroup g m = .error .value :=
+    (∃ c, parseGroup g m = .ok c ∧ ParserTotal.Plain c) ∨ parseGroup g m = .error .value :=
   parseGroup_plain g m h
 
 /-! ## B. printing — no local bound, mutually regular bounds -/
@@ -1321,7 +1321,7 @@ theorem compact_sub_markers_invariant (syn : Syn) (subs : List M) (h : compactSu
 /-- a `SingleMarker` built from a name and a constraint string satisfies it -/
 theorem mk_single_invariant (name cstr : String) (sw : Bool) (s : Single) (h : mkSingle name cstr sw = .ok s) :
     LeafOK GoodVC (.single s) := by
-  have := (mkSingle_res vc_err_documented vcOpsTotal_good name cstr sw).of_ok h
+  have := (mkSingle_res (sb := true) vc_err_documented vcOpsTotal_good name cstr sw).of_ok h
   simpa using this
 
 /-- **X2. The whole mutual block preserves the invariant and, on invariant operands, fails only with fuel,
@@ -1676,6 +1676,10 @@ STILL FALSE at the constructor level (real, replayed): `SingleMarker("os_name", 
 `SingleMarker("os_name", "==a'\\").invert()` raise `UnexpectedCharacters` — a value holding `'` is written between
 double quotes unchanged, which is only right for values that came out of an `ESCAPED_STRING` token;
 `SingleMarker("foo", "==x").invert()` too (unknown name).  These objects cannot come out of `parse_marker`.
+The simplifier part: `MergeNoSyntax` (the leaf merge returns invariant leaves and does not raise lark's error) is
+PROVED for markers that do not mention `python_version` / `python_full_version` (`merge_no_syntax_nopy`; both
+re-parsing steps of the merge sit in the python-version branches), which removes the hypothesis from the
+`*_nopy` statements for `parse_marker` and `Requirement`; it stays a named hypothesis for the python-version leaves.
 NOT reached (named missing lemmas): (b) swapped items `"value" op name` and `~=` (`SynPlain`): needs "the operator
 group of `STR_CMP_CONSTRAINT` is never `~=`", "its value group is the whole token" and, for `~=`, (a1); for the
 simplifier (`MergeNoSyntax`): (a1) every `Version.text` inside a leaf constraint is plain, as an invariant of the
@@ -1863,5 +1867,71 @@ theorem req_parse_top_no_syntax_partial (hM : MergeNoSyntax (LeafOK GoodVC)) (s 
       · exact .inl h
       · exact .inr (.inl h)
   · exact .inl hv
+
+/-! ## the simplifier on markers that do not mention `python_version` / `python_full_version`: no hypothesis -/
+
+/-- **S′. The named hypothesis discharged away from the python-version variables.**  Both re-parsing steps of
+`_merge_single_markers` sit in its `python_version` / `python_full_version` branches; on leaves named otherwise
+(`NoPyOK`: the Part X invariant, a grammar name other than those two, spelt canonically) the merge returns such
+leaves again and fails with fuel / `ValueError` / `.unmodelled` only. -/
+theorem merge_no_syntax_nopy : MergeNoSyntax (NoPyOK GoodVC) :=
+  mergeNoSyntax_noPy vc_err_documented vcOpsTotal_good
+
+/-- hence the whole simplifier, on such markers: no lark error (and the invariant is preserved) -/
+theorem simplifier_no_syntax_nopy (fuel : Nat) (stk : Stack) (ms : List M)
+    (hg : ∀ m ∈ ms, M.Good (NoPyOK GoodVC) m) (e : PyErr) (h : unionF fuel stk ms = .error e) :
+    e = .fuel ∨ e = .recursion ∨ e = .value ∨ e = .unmodelled :=
+  simplifier_no_syntax_partial _ merge_no_syntax_nopy fuel stk ms hg e h
+
+/-- what `_compact_markers` builds from an accepted text without python-version items is of that kind -/
+theorem compact_leaves_nopy (s : String) (syn : Syn) (subs : List M) (hp : parseText s = .ok syn)
+    (hnp : SynNoPy syn = true) (h : compactSubMarkers syn = .ok subs) : ∀ m ∈ subs, M.Good (NoPyOK GoodVC) m :=
+  compactSubMarkers_noPy vc_err_documented vcOpsTotal_good syn subs (parseText_tok s syn hp) hnp h
+
+/-- **`parse_marker(text)`, public function, for every accepted text that does not mention `python_version` /
+`python_full_version`: lark's error cannot occur** — `ValueError`, `.unmodelled`, fuel only.  No hypothesis. -/
+theorem parse_marker_top_no_syntax_nopy (s : String) (syn : Syn) (hp : parseText s = .ok syn)
+    (hnp : SynNoPy syn = true) (e : PyErr) (h : parseMarkerTop s = .error e) :
+    e = .value ∨ e = .unmodelled ∨ e = .fuel := by
+  rcases parseMarkerTop_err s e h with ⟨hp', hne⟩ | ⟨_, hv⟩
+  · rcases parseMarker_noPy vc_err_documented vcOpsTotal_good s syn hp hnp e hp' with h | h | h | h
+    · exact .inr (.inr h)
+    · exact absurd h hne
+    · exact .inl h
+    · exact .inr (.inl h)
+  · exact .inl hv
+
+/-- … so for such texts lark's error is the grammar's error on the input -/
+theorem parse_marker_top_syntax_is_input_nopy (s : String) (h : parseMarkerTop s = .error .syntax)
+    (hnp : ∀ syn, parseText s = .ok syn → SynNoPy syn = true) : parseText s = .error .syntax := by
+  cases hp : parseText s with
+  | error e => rw [marker_parse_err_documented s e hp]
+  | ok syn =>
+    rcases parse_marker_top_no_syntax_nopy s syn hp (hnp syn hp) _ h with h | h | h <;> cases h
+
+/-- **`Requirement(text)`, public constructor, when the marker part does not mention the python-version
+variables: no lark error at all.**  No hypothesis. -/
+theorem req_parse_top_no_syntax_nopy (s : String) (e : PyErr) (h : Req.parseTop s = .error e)
+    (hnp : ∀ raw syn, Req.parseRaw s.toList = some raw → raw.marker = some syn → SynNoPy syn = true) :
+    e = .value ∨ e = .unmodelled ∨ e = .fuel := by
+  rcases Req.guardRecursion_err _ e h with ⟨hp, hne⟩ | ⟨_, hv⟩
+  · rcases req_parse_err_decomposed s e hp with h | h | ⟨raw, _, h⟩ | ⟨raw, syn, hr, hs, h⟩
+    · exact .inl h
+    · exact .inr (.inl h)
+    · exact .inl (vc_parse_err_documented _ false e h)
+    · rcases compactTop_noPy vc_err_documented vcOpsTotal_good syn (parseRaw_marker_tok _ raw syn hr hs)
+          (hnp raw syn hr hs) e h with h | h | h | h
+      · exact .inr (.inr h)
+      · exact absurd h hne
+      · exact .inl h
+      · exact .inr (.inl h)
+  · exact .inl hv
+
+example : parseText "os_name == 'a\\' and (sys_platform != \"x\" or extra == 'y')" =
+      .ok (.more (.item "os_name" "==" "a\\" false) false (.one (.paren (.more (.item "sys_platform" "!=" "x" false)
+        true (.one (.item "extra" "==" "y" false)))))) ∧
+    SynNoPy (.more (.item "os_name" "==" "a\\" false) false (.one (.paren (.more (.item "sys_platform" "!=" "x" false)
+        true (.one (.item "extra" "==" "y" false)))))) = true :=
+  ⟨by decide +kernel, by decide⟩
 
 end Poetry.C19
